@@ -121,7 +121,9 @@ func hasKindTri(v interface{}, k reflect.Kind) tri {
 	if rv.Kind() != k {
 		return no
 	}
-	if isNilTri(v) == unspec {
+	// a nil slice / map / func / chan IS a value of that kind (reflect.ValueOf(v).Kind() says so); only for a
+	// typed nil POINTER the statement leaves open whether it counts as a value or as nil
+	if rv.Kind() == reflect.Ptr && rv.IsNil() {
 		return unspec
 	}
 	return yes
@@ -184,7 +186,7 @@ var (
 		{Form: "sum", Members: []ctSpec{{Form: "prod", Kinds: []reflect.Kind{reflect.String}}, {Form: "sum", Members: []ctSpec{{Form: "prod", Kinds: []reflect.Kind{reflect.Int}}, {Form: "nil"}}}}},
 		{Form: "prod", Kinds: []reflect.Kind{reflect.Int, reflect.Int}},
 	}
-	kindTable  = []reflect.Kind{reflect.Int, reflect.String, reflect.Struct, reflect.Ptr, reflect.Float64, reflect.Slice, reflect.Bool}
+	kindTable  = []reflect.Kind{reflect.Int, reflect.String, reflect.Struct, reflect.Ptr, reflect.Float64, reflect.Slice, reflect.Bool, reflect.Map}
 	equalTable = []interface{}{42, "ccc", nil, S{1}, ptrS, "world", 3.5, true}
 	regexTable = []string{"c+", "^w", "^$", "T$", ".*"}
 
@@ -234,6 +236,8 @@ func probes() []probe {
 		add("&int", "ptr-to-int", ptrInt)
 		add("[]int{1,2}", "slice", []int{1, 2})
 		add("[]int(nil)", "nil-slice", []int(nil))
+		add("map[string]int(nil)", "nil-map", map[string]int(nil))
+		add("map[string]int{}", "map", map[string]int{})
 		add("true", "bool", true)
 		cds := []struct {
 			ct   ctSpec
@@ -618,7 +622,7 @@ func paramConfigs() [][4]int {
 	// patterns accept the same probe (e.g. Kind(String)+Equal("ccc")+Regex(c+))
 	return [][4]int{
 		{0, 0, 0, 0}, {1, 1, 0, 5}, {2, 3, 1, 2}, {3, 4, 2, 3}, {4, 6, 3, 7}, {5, 2, 4, 4}, {6, 7, 4, 6},
-		{1, 5, 1, 8}, {0, 2, 2, 1}, {3, 3, 3, 9}, {2, 4, 0, 0}, {1, 0, 4, 5},
+		{1, 5, 1, 8}, {0, 2, 2, 1}, {3, 3, 3, 9}, {2, 4, 0, 0}, {1, 0, 4, 5}, {7, 2, 0, 4}, {5, 2, 1, 0},
 	}
 }
 
